@@ -30,15 +30,20 @@ func Scenario(quick bool) l2.ScenarioFunc {
 
 // Scenarios returns the scenario function of the whole case list: scenarios
 // 0..nBase-1 are the mutation-script scenarios (some with a re-org phase woven
-// in), scenarios nBase.. are the re-org family (the first NumFixedReorg of
-// them do not depend on the seed).
-func Scenarios(quick bool, nBase int) l2.ScenarioFunc {
+// in), scenarios nBase..nBase+nReorg-1 are the re-org family (the first
+// NumFixedReorg of them do not depend on the seed), the scenarios after them
+// the lag family (the first NumFixedLag do not depend on the seed).
+func Scenarios(quick bool, nBase, nReorg int) l2.ScenarioFunc {
 	return func(seed int64, k int, res *l2.Result) {
-		if k < nBase {
+		switch {
+		case k < nBase:
 			Run(seed, k, quick, res)
-			return
+		case k < nBase+nReorg:
+			RunPlan(MakeReorgPlan(seed, k-nBase, quick), fmt.Sprintf("c05-reorg-%d", k-nBase), res)
+		default:
+			j := k - nBase - nReorg
+			RunPlan(MakeLagPlan(seed, j, quick), fmt.Sprintf("c05-lag-%d", j), res)
 		}
-		RunPlan(MakeReorgPlan(seed, k-nBase, quick), fmt.Sprintf("c05-reorg-%d", k-nBase), res)
 	}
 }
 
@@ -290,7 +295,7 @@ func RunPlan(plan Plan, name string, res *l2.Result) {
 		// A call is still blocked inside the client: do not touch it further.
 		return
 	}
-	if plan.Lag > 0 && !s.lagPhase() {
+	if (plan.Lag > 0 || len(plan.LagSteps) > 0) && !s.lagPhase() {
 		return
 	}
 	if !s.stopAndCheckDB("end") {
@@ -468,87 +473,245 @@ func (s *state) runRound(idx int, rd Round) (ok, baselineFailed bool) {
 	return true, baselineFailed
 }
 
-// lagPhase: the chain grows by plan.Lag blocks; the peers serve their headers
+// resolveLag turns the planned relation of a KLagShift answer into the shift
+// for a target up blocks above the filter-header tip with lag blocks of lag,
+// and normalises the relation (it is part of labels and signatures).
+func resolveLag(specs []Spec, up, lag int32) []Spec {
+	out := append([]Spec(nil), specs...)
+	for i := range out {
+		s := &out[i]
+		if s.Kind != KLagShift {
+			continue
+		}
+		switch s.Rel {
+		case RelOneBelow:
+			s.Shift = 1
+		case RelLagDepth:
+			s.Shift = lag
+		case RelWithinLag:
+			s.Shift = up - 1
+		case RelBelowFilterTip:
+			s.Shift = up + 1 + int32(i)%3
+		default:
+			s.Shift = up
+		}
+		if s.Shift < 1 {
+			s.Shift = 1
+		}
+		switch {
+		case s.Shift == up:
+			s.Rel = RelToFilterTip
+		case s.Shift < up:
+			s.Rel = RelWithinLag
+		default:
+			s.Rel = RelBelowFilterTip
+		}
+	}
+	return out
+}
+
+// lagPhase: the block-header chain moves (it grows, or its last blocks are
+// replaced by a heavier branch) while the peers serve the new block headers
 // but withhold their filter headers, so the client's block-header tip is above
 // its filter-header tip. Asked for the filter of such a block the client has
 // no committed header to verify anything against: the call must fail, and
-// nothing for those blocks may be cached or persisted (the peers push the true
-// filters of the new blocks along with their answers).
+// nothing for those blocks may be cached or persisted, whatever the peers
+// answer (the block's true filter, the true filters of all new blocks pushed
+// along, genuine filters of earlier blocks under the new blocks' hashes). The
+// blocks below (reverse batches reach them) keep their committed headers:
+// whatever is cached or persisted for them has to verify as always.
 func (s *state) lagPhase() bool {
 	w, d, res := s.w, s.d, s.res
-	ext := w.G.Extend(s.tip, s.plan.Lag, chaingen.PaceNormal)
-	d.SetLag(ext)
-	for _, p := range w.Peers {
-		p.View.SetTip(ext[len(ext)-1])
+	steps := s.plan.LagSteps
+	if len(steps) == 0 {
+		steps = []LagStep{{Grow: s.plan.Lag, Calls: s.plan.LagCalls, Muts: s.plan.LagMuts}}
 	}
-	for _, p := range w.Peers {
-		if p.Conn() != nil && !p.Conn().Dead() {
-			p.AnnounceHeaders(ext...)
+	var lag []*chaingen.Node // the peers' blocks above the client's filter-header tip (s.tip)
+	ncall := 0
+	for si, st := range steps {
+		top := s.tip
+		if len(lag) > 0 {
+			top = lag[len(lag)-1]
 		}
-	}
-	want := uint32(s.tip.Height) + uint32(s.plan.Lag)
-	if !l2.WaitFor(20*time.Second, func() bool {
-		_, h, err := w.Svc.BlockHeaders.ChainTip()
-		return err == nil && h == want
-	}) {
-		res.Count("lag_phase_skipped(headers_not_adopted)", 1)
-		return true
-	}
-	if _, fh, err := w.Svc.RegFilterHeaders.ChainTip(); err != nil || fh != uint32(s.tip.Height) {
-		res.Count("lag_phase_skipped(filter_tip_moved)", 1)
-		return true
-	}
-	res.Count("lag_phases", 1)
-	specs := make([]Spec, s.plan.NPeers)
-	for i := range specs {
-		specs[i] = Spec{Kind: KLagPush}
-	}
-	for i, c := range s.plan.LagCalls {
-		d.BeginRound(1000+i, specs, map[int32]bool{})
-		node := ext[int(c.Height)-s.plan.ChainLen-1]
-		type out struct {
-			f   *gcs.Filter
-			err error
-		}
-		ch := make(chan out, 1)
-		t0 := time.Now()
-		go func() {
-			f, err := w.Svc.GetCFilter(node.Hash, wire.GCSFilterRegular, callOpts(c)...)
-			ch <- out{f, err}
-		}()
-		var o out
-		select {
-		case o = <-ch:
-		case <-time.After(180 * time.Second):
-			res.Inconcl("GetCFilter did not return within 180s (watchdog, lag phase)")
-			return false
-		}
-		res.Count("calls", 1)
-		labels, _, reqs := d.RoundServed()
-		mut := "none-served"
-		if len(labels) > 0 {
-			mut = strings.Join(labels, "+")
-		}
-		outcome := "err-no-committed-header"
-		if o.err == nil {
-			outcome = "ok-UNVERIFIABLE"
-			res.Count("successes", 1)
-			s.violate(evid.Sig("c05/returned-above-committed-filter-tip", mut, capClass(c)),
-				fmt.Sprintf("GetCFilter returned (filter nil=%v, nil error) for a block %d above the committed filter-header tip %d: there is no committed header it could have been verified against",
-					o.f == nil, int(c.Height)-s.plan.ChainLen, s.tip.Height),
-				map[string]any{"call": c, "lag": s.plan.Lag, "requests_answered": reqs})
+		var ann []*chaingen.Node
+		afterReorg := false
+		if st.Depth > 0 {
+			// The last Depth blocks of the block-header chain are replaced.
+			depth := int32(st.Depth)
+			if depth > top.Height-2 {
+				depth = top.Height - 2
+			}
+			fork := top.Ancestor(top.Height - depth)
+			branch := w.G.Extend(fork, int(depth)+st.Extra, chaingen.PaceNormal)
+			for i := 0; branch[len(branch)-1].CumWork.Cmp(top.CumWork) <= 0; i++ {
+				if i >= 24 {
+					res.Count("lag_family/steps_skipped(no_heavier_branch)", 1)
+					return true
+				}
+				branch = append(branch, w.G.Extend(branch[len(branch)-1], 1, chaingen.PaceNormal)...)
+			}
+			if fork.Height < s.tip.Height {
+				// Committed blocks are replaced too: their filter headers go
+				// with them; the fork point becomes the filter-header tip.
+				res.Count("lag_family/reorgs_rolling_back_committed_filter_headers", 1)
+				s.tip, s.trunk = fork, fork.Path()
+				d.SetChain(fork)
+				lag = nil
+			} else {
+				lag = lag[:fork.Height-s.tip.Height]
+			}
+			lag = append(append([]*chaingen.Node(nil), lag...), branch...)
+			ann, afterReorg = branch, true
+			res.Count("lag_family/reorgs_while_filter_headers_withheld", 1)
 		} else {
-			res.Count("errors", 1)
-			res.Count("errors_above_filter_tip(required)", 1)
+			ext := w.G.Extend(top, st.Grow, chaingen.PaceNormal)
+			lag = append(append([]*chaingen.Node(nil), lag...), ext...)
+			ann = ext
 		}
-		res.Mark(fmt.Sprintf("mut=%s pos=outside batch=%s boundary=%s persist=%v conc=false outcome=%s",
-			mut, capClass(c), c.Boundary, s.plan.Persist, outcome))
-		s.calls = append(s.calls, fmt.Sprintf("lag%d block=tip+%d %s retries=%d [%s] -> %s (%.1fs)", s.plan.Lag,
-			int(c.Height)-s.plan.ChainLen, capClass(c), c.Retries, mut, outcome, time.Since(t0).Seconds()))
+		d.SetLag(lag)
+		newTop := lag[len(lag)-1]
+		for _, p := range w.Peers {
+			p.View.SetTip(newTop)
+		}
+		for _, p := range w.Peers {
+			if p.Conn() != nil && !p.Conn().Dead() {
+				p.AnnounceHeaders(ann...)
+			}
+		}
+		if !l2.WaitFor(30*time.Second, func() bool {
+			hd, h, err := w.Svc.BlockHeaders.ChainTip()
+			return err == nil && h == uint32(newTop.Height) && hd.BlockHash() == newTop.Hash
+		}) {
+			res.Count("lag_phase_skipped(headers_not_adopted)", 1)
+			return true
+		}
+		if _, fh, err := w.Svc.RegFilterHeaders.ChainTip(); err != nil || fh != uint32(s.tip.Height) {
+			res.Count("lag_phase_skipped(filter_tip_moved)", 1)
+			return true
+		}
+		if si == 0 {
+			res.Count("lag_phases", 1)
+		}
+		res.Count("lag_steps", 1)
+		res.Count(fmt.Sprintf("lag_steps_with_lag_%d", len(lag)), 1)
+		L := int32(len(lag))
+		for i, c := range st.Calls {
+			up := c.Up
+			if up < 1 {
+				up = c.Height - int32(s.plan.ChainLen)
+			}
+			if up < 1 {
+				up = 1
+			}
+			if up > L {
+				up = L
+			}
+			c.Up = up
+			lagSafe(&c)
+			up = c.Up
+			node := lag[up-1]
+			c.Height = node.Height
+			switch {
+			case up == L && L == 1:
+				c.Boundary = "above-filter-tip:the-only"
+			case up == L:
+				c.Boundary = "above-filter-tip:top"
+			case up == 1:
+				c.Boundary = "above-filter-tip:first"
+			default:
+				c.Boundary = "above-filter-tip:middle"
+			}
+			if afterReorg {
+				c.Boundary += "/after-reorg"
+			}
+			specs := make([]Spec, s.plan.NPeers)
+			for j := range specs {
+				specs[j] = Spec{Kind: KLagPush}
+			}
+			if i < len(st.Muts) && len(st.Muts[i]) == s.plan.NPeers {
+				specs = resolveLag(st.Muts[i], up, L)
+			}
+			d.BeginRound(1000+ncall, specs, map[int32]bool{node.Height: true})
+			ncall++
+			type out struct {
+				f   *gcs.Filter
+				err error
+			}
+			ch := make(chan out, 1)
+			t0 := time.Now()
+			go func() {
+				f, err := w.Svc.GetCFilter(node.Hash, wire.GCSFilterRegular, callOpts(c)...)
+				ch <- out{f, err}
+			}()
+			var o out
+			select {
+			case o = <-ch:
+			case <-time.After(180 * time.Second):
+				res.Inconcl("GetCFilter did not return within 180s (watchdog, lag phase)")
+				return false
+			}
+			res.Count("calls", 1)
+			res.Count("lag_family/calls_above_filter_tip", 1)
+			labels, pos, reqs := d.RoundServed()
+			mut := "none-served"
+			if len(labels) > 0 {
+				mut = strings.Join(labels, "+")
+			}
+			posc := "outside"
+			if len(pos) > 0 && strings.Join(pos, "+") != "-" {
+				posc = strings.Join(pos, "+")
+			}
+			shifted := false
+			for _, l := range labels {
+				if strings.HasPrefix(l, KLagShift) {
+					shifted = true
+				}
+			}
+			if shifted {
+				// An answer naming the block asked for and carrying an earlier
+				// block's genuine filter actually went out during this call.
+				res.Count("lag_family/calls_answered_with_earlier_blocks_filters", 1)
+				res.Nontrivial = true
+			}
+			// The committed filter-header chain as it is NOW decides: had the
+			// client committed a header for the block meanwhile, the result
+			// would be judged against it like any other.
+			committed, cerr := l2.ReadFilterChain(w.Svc.RegFilterHeaders)
+			if cerr != nil {
+				res.Inconcl("committed filter headers unreadable: " + cerr.Error())
+				return false
+			}
+			outcome := "err-no-committed-header"
+			switch {
+			case o.err == nil && int(node.Height) < len(committed):
+				outcome = "ok-header-committed-meanwhile"
+				res.Count("lag_family/calls_whose_block_got_a_committed_header_meanwhile", 1)
+				if why := verify(o.f, node, committed); why != "" {
+					s.violate(evid.Sig("c05/returned-unverified", "net", mut, posc, capClass(c), c.Boundary),
+						fmt.Sprintf("GetCFilter(height %d) returned a filter that does not verify: %s", node.Height, why),
+						map[string]any{"call": c, "lag": L, "requests_answered": reqs})
+				}
+			case o.err == nil:
+				outcome = "ok-UNVERIFIABLE"
+				res.Count("successes", 1)
+				s.violate(evid.Sig("c05/returned-above-committed-filter-tip", mut, capClass(c)),
+					fmt.Sprintf("GetCFilter returned (filter nil=%v, nil error) for the block %d above the committed filter-header tip %d (lag %d): there is no committed header it could have been verified against",
+						o.f == nil, up, s.tip.Height, L),
+					map[string]any{"call": c, "lag": L, "blocks_above_filter_tip": up, "peer_answers": specs, "requests_answered": reqs,
+						"after_reorg": afterReorg})
+			default:
+				res.Count("errors", 1)
+				res.Count("errors_above_filter_tip(required)", 1)
+			}
+			res.Mark(fmt.Sprintf("mut=%s pos=%s batch=%s boundary=%s persist=%v conc=false outcome=%s",
+				mut, posc, capClass(c), c.Boundary, s.plan.Persist, outcome))
+			s.calls = append(s.calls, fmt.Sprintf("lag%d block=filtertip+%d %s retries=%d [%s] -> %s (%.1fs)", L,
+				up, capClass(c), c.Retries, mut, outcome, time.Since(t0).Seconds()))
+			// Cache entries keyed by blocks above the filter-header tip are
+			// judged as such; the lower blocks of a reverse batch as always.
+			s.checkCache(fmt.Sprintf("lag-step-%d-call-%d", si, i), Round{Pattern: "lag", Muts: specs, Calls: []Call{c}})
+		}
 	}
-	// New blocks are not chain blocks for the director: a cache entry keyed by
-	// one of them is reported as foreign (it cannot have been verified).
-	s.checkCache("after-lag-phase", Round{Pattern: "lag", Muts: specs})
 	return true
 }
 
@@ -583,7 +746,21 @@ func (s *state) checkCache(when string, rd Round) {
 		}(s.vioTotal())
 		node := d.Node(k.BlockHash)
 		wit := map[string]any{"when": when, "round_plan": rd, "cache_key_block": k.BlockHash.String(), "cache_key_type": k.FilterType}
+		lagNode := d.LagNode(k.BlockHash)
 		switch {
+		case node == nil && lagNode != nil && int(lagNode.Height) >= len(committed):
+			// A block of the current chain without committed filter header:
+			// whatever is stored under it cannot have been verified.
+			wit["height"], wit["committed_filter_tip"] = lagNode.Height, len(committed)-1
+			s.violate(evid.Sig("c05/cached-above-committed-filter-tip", mut),
+				fmt.Sprintf("the filter cache holds an entry for block height %d, above the committed filter-header tip %d: no committed header exists it could have been verified against",
+					lagNode.Height, len(committed)-1), wit)
+		case node == nil && lagNode != nil:
+			if why := verify(v.Filter, lagNode, committed); v == nil || why != "" {
+				wit["height"] = lagNode.Height
+				s.violate(evid.Sig("c05/cached-unverified", mut),
+					fmt.Sprintf("the filter cache holds, for block height %d, a filter that does not verify: %s", lagNode.Height, why), wit)
+			}
 		case node == nil:
 			s.violate(evid.Sig("c05/cached-under-foreign-key", mut),
 				"the filter cache holds an entry keyed by a hash that is no block of the chain", wit)
@@ -701,6 +878,24 @@ func (s *state) stopAndCheckDB(when string) bool {
 			}
 		}
 	}
+	// Blocks of the current chain above the committed filter-header tip (lag
+	// phase): nothing can have been verified for them.
+	for _, node := range d.LagNodes() {
+		hash := node.Hash
+		f, err := w.Svc.FilterDB.FetchFilter(&hash, filterdb.RegularFilter)
+		if err == filterdb.ErrFilterNotFound {
+			continue
+		}
+		wit := map[string]any{"when": when, "height": node.Height, "committed_filter_tip": len(committed) - 1, "error": fmt.Sprint(err)}
+		if int(node.Height) >= len(committed) {
+			s.violate(evid.Sig("c05/persisted-above-committed-filter-tip"),
+				fmt.Sprintf("FilterDB holds an entry for block height %d, above the committed filter-header tip %d: no committed header exists it could have been verified against",
+					node.Height, len(committed)-1), wit)
+		} else if why := verify(f, node, committed); err != nil || why != "" {
+			s.violate(evid.Sig("c05/persisted-unverified"),
+				fmt.Sprintf("FilterDB holds, for block height %d, a filter that does not verify: %s", node.Height, why), wit)
+		}
+	}
 	// Complete key set: nothing may be stored under a hash that is no block
 	// of the chain (in particular none of the foreign hashes the peers used).
 	keys, _, kerr := s.rawDBKeys()
@@ -708,6 +903,9 @@ func (s *state) stopAndCheckDB(when string) bool {
 		foreign := 0
 		for _, k := range keys {
 			node := d.Node(k)
+			if node == nil && d.LagNode(k) != nil {
+				continue // judged above
+			}
 			if node == nil {
 				foreign++
 				s.violate(evid.Sig("c05/persisted-under-foreign-key"),
